@@ -259,6 +259,36 @@ def run_check(pid, tier, seed):
         say(pid, 'UNDECIDED (exit 2): Verus verified zero functions')
         return 2
 
+    # vacuity probes: a second annotated copy with assert(false) at the entry of every function under contract and every
+    # registered lemma of the cone; each probe must FAIL (a probe that verifies means a contradictory precondition)
+    probe_crate = os.path.join(scratch, 'probe')
+    try:
+        pmeta = annotate.annotate(os.path.join(REPO, 'src'), probe_crate, spec_paths(), os.path.join(VERIF, 'ghost', 'vshim.rs'), ghost_mods(), probes=True)
+    except (annotate.AnchorLost, rustlex.ParseError, vspec.SpecError) as e:
+        say(pid, 'UNDECIDED (exit 2): annotator (probe copy): %s' % e)
+        return 2
+    pv = verus_run.run_verus(probe_crate, modules if tier == 'quick' else [], rlimit=20, multiple_errors=2, log_path=os.path.join(scratch, 'verus-probe.log'))
+    pres = verus_run.function_results(pv['summary'])
+    unit_fns = {u.get('fn') for u in units if u.get('fn')} | {'lemma ' + u['lemma'] for u in units if u['kind'] == 'lemma'}
+    probes_checked, vacuous = 0, []
+    for pr in pmeta['probed']:
+        if pr not in unit_fns:
+            continue
+        name = pr[6:] if pr.startswith('lemma ') else pr
+        hits = [k for k in pres if k == name or k.endswith('::' + name)]
+        if not hits:
+            continue
+        probes_checked += 1
+        if any(pres[h]['success'] for h in hits):
+            vacuous.append(pr)
+    if vacuous:
+        say(pid, 'UNDECIDED (exit 2): vacuity probe verified (contradictory precondition?) in %s' % vacuous)
+        return 2
+    if probes_checked == 0 and unit_fns:
+        say(pid, 'UNDECIDED (exit 2): vacuity probe run produced no result: %s' % pv['stderr_tail'][-300:])
+        return 2
+    say(pid, 'vacuity probes: %d probes failed as they must (%.1f s)' % (probes_checked, pv['wall_s']))
+
     mine = {n: r for n, r in all_fail.items() if pid in r.get('props', []) or '*' in r.get('props', [])}
     others = {n: r for n, r in all_fail.items() if n not in mine}
     unit_names = {u['name'] for u in units}
@@ -324,6 +354,7 @@ def run_check(pid, tier, seed):
             'verus_runs': runs,
             'solver_ms_by_function': fn_times,
             'kani': [{k: h[k] for k in ('name', 'role', 'status', 'wall_s', 'bound')} for h in kani_res],
+            'vacuity_probes': {'checked': probes_checked, 'verified_unexpectedly': vacuous},
             'rewrites_applied': len(meta['rewrites']),
             'rewrite_rules': sorted({r['rule'] for r in meta['rewrites']}),
             'rewrite_log_sample': meta['rewrites'][:6],
